@@ -162,6 +162,13 @@ def explore_resolver(fx, rn):
             if k != "Some":
                 raise A._Infeasible()
             return A.some(pv)
+        if s2 == "Iterator::next" and args and A.mentions(args[0], lambda x: x[0] == "term" and T.short(x[1], 2) == "Pipeline::responses"):
+            # `for resp in pipeline.responses()`: one symbolic response per iteration, as for find_map
+            if interp.choose(2, "next-response") == 1:
+                interp.trace.append(("next", args[0], "None"))
+                return A.NONE
+            interp.trace.append(("next", args[0], "Some"))
+            return A.some(A.ok(("sym", "RESPONSE")))
         if s2 in ("Evaluator::collect_result",) and len(args) >= 2:
             # Result<T,E> -> Result<Option<T>,E>: Ok(x) => Ok(Some(x)); errors are C03's subject
             k, p = interp._known(args[1], False)
